@@ -528,3 +528,34 @@ def orient(cmp, is_left):
     if is_left(r) and type(cmp.ops[0]) in FLIPOP:
         return ast.copy_location(ast.Compare(left=r, ops=[FLIPOP[type(cmp.ops[0])]()], comparators=[l]), cmp)
     return None
+
+
+def shared_obligations(R, oid, module_name, wanted, title=None):
+    """run another property's rule module on the same program and take over the instances of the obligations in `wanted`
+    (a dict other-obligation-id -> predicate on the instance text, or None for all) under obligation `oid` of this run.
+    Used where one property depends on behaviour another property's rules already decide (no second copy of the rule)."""
+    import importlib
+    from ..report import Run
+    mod = importlib.import_module(f'sa.rules.{module_name.lower()}')
+    sub = Run(module_name.upper(), R.P, tier='quick', evidence_dir=R.evidence_dir, quiet=True)
+    sub.known = []          # known findings are recorded per property: judged afresh under this property's id
+    mod.run(sub)
+    n = 0
+    for o_id, pred in wanted.items():
+        ob = sub.obligations.get(o_id)
+        if ob is None:
+            raise AnalysisError(f'shared obligation {o_id} vanished from {module_name}')
+        for inst in ob.instances:
+            if pred is not None and not pred(inst['instance']):
+                continue
+            n += 1
+            if inst['status'] == 'discharged':
+                R.ok(oid, f'[{o_id}] {inst["instance"]}', inst['site'], inst['detail'])
+        for v in sub.violations:
+            if v['obligation'] == o_id and (pred is None or pred(v['instance'])):
+                R.fail(oid, f'[{o_id}] {v["instance"]}', v['function'], v['construct'], v['what'], v['site'])
+    for q in sub.functions:
+        R.functions.add(q)
+    if n == 0:
+        raise AnalysisError(f'shared obligations {sorted(wanted)} of {module_name} have no instance')
+    return n
